@@ -555,7 +555,7 @@ pub fn c06(ctx: &mut Ctx) {
         }
     }
     // many records (beyond any plausible look-ahead or batch size inside a reader)
-    for nrec in [1025usize, 2049, 5000, 70_000] {
+    for nrec in [1025usize, 2049, 5000, 70_000, 99, 100, 101, 999, 1000, 1001, 9_999, 10_000, 10_001, 100_000] {
         for ser in [Ser::FastaLine, Ser::FastaWrap(3), Ser::Fastq] {
             for cont in ["plain", "gz1-l6", "gz2-mid"] {
                 if !sh.mine() || (nrec > 5000 && (cont == "gz2-mid" || ser == Ser::FastaWrap(3))) {
@@ -1456,8 +1456,17 @@ pub fn c08(ctx: &mut Ctx) {
     ctx.rep.count("cases.pipeline_multiplicity", n);
     // vector files whose size is exactly a multiple of 4 KiB / 8 KiB / 64 KiB (normalised rows have a fixed width)
     if !ctx.monitor() {
-        let pool: Vec<Vec<u8>> = (0..8200usize).map(|i| long_bases(2 + i % 7, i)).collect();
+        let pool: Vec<Vec<u8>> = (0..10_002usize).map(|i| long_bases(2 + i % 7, i)).collect();
         let mut nb = 0u64;
+        // record counts at round decimal numbers
+        for nrec in [99usize, 100, 101, 999, 1000, 1001, 9_999, 10_000, 10_001] {
+            for (threads, mem, norm) in [(1usize, 6.0f64, true), (4, 0.5, false)] {
+                if sh.mine() {
+                    c08_pipeline(ctx, &pool[..nrec], None, 2, 2, 3, norm, threads, mem);
+                    nb += 1;
+                }
+            }
+        }
         for bc in [3usize, 16, 64] {
             let row = {
                 // measured on one record, so that the row format is not assumed here
